@@ -124,3 +124,68 @@ Fixpoint tlsa_eqb (a b : list (N * Z)) : bool :=
   end.
 Definition class_wrong_host (k : tcase) : bool :=
   negb (forallb (fun c => tlsa_eqb (own_tlsa c) (tlsa_eff (k_conns k))) (k_conns k)).
+
+(* ------------------------------------------------------------------ the property, event by event *)
+(** the events since the last connect *)
+Fixpoint since_conn_acc (acc tr : list ev) : list ev :=
+  match tr with
+  | [] => acc
+  | EvConn _ :: tr' => since_conn_acc [] tr'
+  | e :: tr' => since_conn_acc (acc ++ [e]) tr'
+  end.
+Definition since_conn (tr : list ev) : list ev := since_conn_acc [] tr.
+
+Fixpoint last_conn_acc (o : option nat) (tr : list ev) : option nat :=
+  match tr with
+  | [] => o
+  | EvConn i :: tr' => last_conn_acc (Some i) tr'
+  | _ :: tr' => last_conn_acc o tr'
+  end.
+(** the MX the client is connected to at the end of [tr] *)
+Definition last_conn (tr : list ev) : option nat := last_conn_acc None tr.
+
+Definition hs_done (l : list ev) : Prop := exists p, In (EvHs p 0) l.
+Definition hs_failed (l : list ev) : Prop := exists p h, h <> 0%N /\ In (EvHs p h) l.
+
+(** [l] sits in [stream] in front of a CRLF, with [lft] bytes behind that CRLF *)
+Definition cut_at (stream l : bytes) (lft : nat) : Prop :=
+  exists pre post, stream = pre ++ l ++ [CR; LF] ++ post /\ length post = lft.
+
+(** what may be observed as the next event [e] after the events [pre] *)
+Definition C18_event_ok (k : tcase) (pre : list ev) (e : ev) : Prop :=
+  let since := since_conn pre in
+  match e with
+  | EvHs p _ =>
+      (* the handshake starts with an empty line buffer, once per connection *)
+      p = 0 /\ ~ hs_done since /\ ~ hs_failed since
+  | EvR t it lft =>
+      (* TLS is used for reading exactly from the successful handshake on, and a line read through
+         TLS is a piece of what the TLS session of this connection delivered, at this very position *)
+      (t = true <-> hs_done since) /\
+      match it with
+      | RLine l => t = true -> exists i, last_conn pre = Some i /\ cut_at (tls_stream (conn_of k i)) l lft
+      | _ => True
+      end
+  | EvW t b =>
+      (* nothing is written in clear after the handshake; after a failed one only QUIT *)
+      (t = true <-> hs_done since) /\ (hs_failed since -> b = ST_CMD_QUIT)
+  | EvMail t ext =>
+      exists i, last_conn pre = Some i /\
+      ~ hs_failed since /\ (t = true <-> hs_done since) /\
+      (* in clear only without a certificate of the route and without a requirement for this host *)
+      (t = false -> k_route k = false /\ need_verify (conn_of k i) = false) /\
+      (* a host that has to authenticate itself did so *)
+      (need_verify (conn_of k i) = true -> In (EvVfy 0) since) /\
+      (* inside TLS every extension relied on was offered in a line received inside TLS *)
+      (t = true -> forall bit, N.testbit ext bit = true ->
+         exists l lft, In (EvR true (RLine l) lft) since /\ N.testbit (line_ext l) bit = true)
+  | EvCert r => r = k_route k
+  | EvVfy _ => hs_done since
+  | _ => True
+  end.
+
+Definition C18_trace_ok (k : tcase) (tr : list ev) : Prop :=
+  forall pre e post, tr = pre ++ e :: post -> C18_event_ok k pre e.
+
+(** the property for one case *)
+Definition C18_holds (k : tcase) : Prop := C18_trace_ok k (trace k).
